@@ -1,5 +1,5 @@
 import TF.Proofs.LatticeCt
-import TF.Proofs.LatticeEmbed
+import TF.Proofs.LatticeKem
 /-!
 # C18 — lattice ring product is negacyclic convolution; KEM correct, rejects tampering
 
@@ -114,9 +114,8 @@ theorem dec_rejects_everything_else (O : Oracles) (sk : SecretKey) (c : Cipherte
 example : (⟨#[], #[]⟩ : Ciphertext) ≠ ⟨#[#[1]], #[]⟩ := by decide
 
 /-- **Honest round trip, deterministic core**: for keys from `keygen` and a ciphertext from `enc`, decapsulation
-    returns the encapsulated key whenever message extraction recovers the payload (which it does when the noise term
-    `b·c - d·a` stays below the lane threshold — see `embed_extract`; the probability of that event is not a statement
-    about a deterministic model and is not proved). -/
+    returns the encapsulated key whenever message extraction recovers the payload (see `kem_correct_under_noise_bound`
+    for the sufficient condition on the noise). -/
 theorem kem_roundtrip_of_extraction (O : Oracles) (rk r : List Nat)
     (hext : decPayload O (keygen O rk).1 (enc O (keygen O rk).2 r).2 = O.xof r 32) :
     dec O (keygen O rk).1 (enc O (keygen O rk).2 r).2 = some (enc O (keygen O rk).2 r).1 := by
@@ -124,24 +123,23 @@ theorem kem_roundtrip_of_extraction (O : Oracles) (rk r : List Nat)
   exact ⟨rfl, rfl⟩
 example : ∃ O : Oracles, O.xof [] 32 = List.replicate 32 0 := ⟨{ xof := fun _ n => List.replicate n 0, hash := fun _ => [1] }, rfl⟩
 
-/-- Full statement of KEM correctness under the noise bound (not proved; see `tools/props/C18.json`): if every
-    coefficient of the noise ring element `Σ_i b_i·c_i − Σ_i d_i·a_i` (short secret vectors of key generation and
-    encapsulation, negacyclic products) is an integer in `(-2^14, 2^14)`, decapsulation returns the encapsulated key.
-    Proved parts: `kem_roundtrip_of_extraction` (reduction to "extraction recovers the payload"), `embed_extract`
-    (extraction recovers the payload under the noise bound), `coset_intt_ntt`, `ring_mul_is_negacyclic`.
-    Missing: the module-level algebra showing that the element `dec` extracts from is `embed_msg payload + noise`. -/
-def kem_correct_under_noise_bound_statement : Prop :=
-  ∀ (O : Oracles) (rk r : List Nat),
-    let sk := (keygen O rk).1
-    let pk := (keygen O rk).2
-    let payload := O.xof r 32
-    let a := (deriveSecretVectors O sk.key).1
-    let c := (deriveSecretVectors O sk.key).2
-    let b := (deriveSecretVectors O payload).1
-    let d := (deriveSecretVectors O payload).2
-    let e := (modSub (modMulWith negacyclic 1 4 1 b c) (modMulWith negacyclic 1 4 1 d a)).getD 0 ringZero
-    payload.length = 32 → (∀ x ∈ payload, x < 256) →
-    (∀ k, k < 64 → e.getD k 0 < 16384 ∨ P - 16384 < e.getD k 0) →
-    dec O sk (enc O pk r).2 = some (enc O pk r).1
+/-- **KEM correctness under the noise bound** (every pair of hash functions, every key seed, every encapsulation
+    seed): if every coefficient of the noise ring element `Σ_i b_i·c_i − Σ_i d_i·a_i` (negacyclic products of the short
+    secret vectors of key generation `(a, c)` and of encapsulation `(b, d)`) is, as a signed field element, in
+    `(-2^14, 2^14)`, then decapsulating the honest ciphertext with the matching secret key returns the encapsulated
+    shared key.  (The element `dec` extracts from is exactly `embed_msg payload + noise`: the public-matrix terms
+    cancel coefficient-wise in the NTT domain, `intt ∘ ntt = id`, and the transform is additive and multiplicative for
+    the negacyclic product.)  The probability that the bound holds is not a statement about a deterministic model. -/
+theorem kem_correct_under_noise_bound (O : Oracles) (rk r : List Nat)
+    (hlen : (O.xof r 32).length = 32) (hb : ∀ x ∈ O.xof r 32, x < 256)
+    (hE : ∀ k, k < 64 →
+      ((modSub (modMulWith negacyclic 1 4 1 (deriveSecretVectors O (O.xof r 32)).1 (deriveSecretVectors O (keygen O rk).1.key).2)
+        (modMulWith negacyclic 1 4 1 (deriveSecretVectors O (O.xof r 32)).2 (deriveSecretVectors O (keygen O rk).1.key).1)).getD 0 ringZero).getD k 0 < 16384 ∨
+      P - 16384 < ((modSub (modMulWith negacyclic 1 4 1 (deriveSecretVectors O (O.xof r 32)).1 (deriveSecretVectors O (keygen O rk).1.key).2)
+        (modMulWith negacyclic 1 4 1 (deriveSecretVectors O (O.xof r 32)).2 (deriveSecretVectors O (keygen O rk).1.key).1)).getD 0 ringZero).getD k 0) :
+    dec O (keygen O rk).1 (enc O (keygen O rk).2 r).2 = some (enc O (keygen O rk).2 r).1 :=
+  kem_correct_noise O rk r hlen hb hE
+example : ∃ O : Oracles, (O.xof [] 32).length = 32 ∧ ∀ x ∈ O.xof [] 32, x < 256 :=
+  ⟨{ xof := fun _ n => List.replicate n 0, hash := fun _ => [1] }, by simp, by intro x hx; simp at hx; omega⟩
 
 end TF.C18
